@@ -130,3 +130,5 @@ impl RunningNode {
 /// Verification hooks (compiled only with `--cfg maidsafe_safe_network_verif`).
 #[cfg(maidsafe_safe_network_verif)]
 pub use self::node::verif as verif_hooks;
+#[cfg(maidsafe_safe_network_verif)]
+pub use self::quote::verif as verif_hooks_quote;
